@@ -24,6 +24,16 @@ func init() {
 			"the correctness of the admissibility tests as values.",
 		Run: runC03,
 		Mutants: []Mutant{
+			{Name: "sharing-verdict-of-last-address-only", File: "internal/allocator/allocator.go",
+				Old: "\tfor _, ip := range ips {\n\t\t// Does the IP already have allocs? If so, needs to be the same\n\t\t// sharing key, and have non-overlapping ports. If not, the\n\t\t// proposed IP needs to be allowed by configuration.\n\t\tif err := a.checkSharing(svcKey, ip.String(), ports, sk); err != nil {\n\t\t\treturn err\n\t\t}\n\t}",
+				New: "\tvar sharingErr error\n\tfor _, ip := range ips {\n\t\tsharingErr = a.checkSharing(svcKey, ip.String(), ports, sk)\n\t}\n\tif sharingErr != nil {\n\t\treturn sharingErr\n\t}", Expect: "GUARD-SHARE"},
+			{Name: "pool-handler-under-its-own-mutex", File: "internal/k8s/listener.go",
+				Old: "func (l *Listener) PoolHandler(logger log.Logger, pools *config.Pools) controllers.SyncState {\n\tl.Lock()\n\tdefer l.Unlock()",
+				New: "var poolsMu sync.Mutex\n\nfunc (l *Listener) PoolHandler(logger log.Logger, pools *config.Pools) controllers.SyncState {\n\tpoolsMu.Lock()\n\tdefer poolsMu.Unlock()", Expect: "LOCK-ENTRY"},
+			{Name: "early-validation-before-readoption", File: "controller/service.go",
+				Old: "\tif len(lbIPs) != 0 {\n\t\t// This assign is idempotent if the config is consistent,", New: "\tif len(lbIPs) != 0 {\n\t\tif _, _, err := getDesiredLbIPs(svc); err != nil {\n\t\t\treturn ErrConverge\n\t\t}\n\t\t// This assign is idempotent if the config is consistent,", Expect: "READOPT-EXIT"},
+			{Name: "family-change-judged-by-held-family", File: "controller/service.go",
+				Old: "\tif clusterIPsIPFamily == ipfamily.DualStack && familyPolicy == v1.IPFamilyPolicyPreferDualStack {", New: "\tif lbIPsIPFamily == ipfamily.DualStack && familyPolicy == v1.IPFamilyPolicyPreferDualStack {", Expect: "FAMILY-KEPT"},
 			{Name: "allocate-before-readopt", File: "controller/service.go",
 				Old: "\t// It's possible the config mutated and the IP we have no longer\n", New: "\tif familyPolicy == v1.IPFamilyPolicySingleStack {\n\t\tlbIPs, err = c.allocateIPs(key, svc)\n\t}\n\t// It's possible the config mutated and the IP we have no longer\n", Expect: "READOPT"},
 			{Name: "allocate-drops-early-return", File: "internal/allocator/allocator.go",
@@ -104,6 +114,16 @@ func runC03(p *chk.Prog, r *chk.Report) {
 	c06Order(p, r)
 	c06Handler(p, r)
 	c06ReadoptFirst(p, r)
+	readoptBeforeExitRule(p, r)
+	// "the family changed" is decided from the cluster IPs' family, not from what the Service happens to hold
+	// (FAMILY-KEPT, shared with C02): the wrong operand clears and re-allocates a valid single address on every sync
+	c02FamilyChanged(p, r)
+	// an address is taken only when every requested address passed the sharing check (GUARD-SHARE, shared with C01):
+	// a holder whose address was handed to an incompatible newcomer is evicted at its next sync
+	c01GuardShare(p, r)
+	// the pool update re-homes allocations in two steps (Unassign + assign): it must exclude the service handler
+	// (LOCK-ENTRY, shared with C20), or a newcomer takes the address in between and the holder is evicted later
+	c20Entry(p, r)
 }
 
 func c03Converge(p *chk.Prog, r *chk.Report) {
@@ -294,7 +314,7 @@ func c03Converge(p *chk.Prog, r *chk.Report) {
 		ga.Check("AdditionalFamily:keeps-existing", af.Pos(), ok, "", "the new assignment does not consist of the existing address plus the additional one")
 		okPool := false
 		for _, c := range ag.FindPat("RECV.getFreeIPsFromPool(P, ETC)") {
-			okPool = definedBy(ag, "RECV.pools.ByName[N]", chk.H("N", isParam(af, "poolName")))(c.Node.(*ast.CallExpr).Args[0])
+			okPool = definedByOrNil(ag, "RECV.pools.ByName[N]", chk.H("N", isParam(af, "poolName")))(c.Node.(*ast.CallExpr).Args[0])
 		}
 		ga.Check("AdditionalFamily:same-pool", af.Pos(), okPool, "", "the additional address is searched outside the named pool")
 	}
@@ -418,6 +438,7 @@ func c03Unassign(p *chk.Prog, r *chk.Report) {
 	allowed := map[string]string{
 		allocA + "assign":                            "svc",
 		allocA + "SetPools":                          "",
+		allocA + "Assign":                            "svcKey", // the release of the previous allocation made by the caller of the raw assign
 		"(*controller.controller).clearServiceState": "key",
 		"(*controller.controller).SetBalancer":       "name",
 		"(*controller.controller).allocateIPs":       "key",
